@@ -32,6 +32,7 @@ def run(chk):
     )
     chk.not_decided = "payload equality and message order end to end, equality of the compression contexts across histories, segmentation independence of the reader beyond the resumable-state rules shared with C12 (C11.rx.*)."
     chk.explanation += " Also decided: a per-message deflate context is created only without context takeover; the reader's resumable-state, opcode-reset and masking-key rules (shared with C12) are evaluated here as C11.rx.*. After the defect hunt: the Close frame is written under the send lock after _closing was set; per-message windows are clamped to the negotiated one; oversized control frames are refused."
+    chk.explanation += " Round 4 / second hunt: the task that takes the send lock starts eagerly; frame lengths are byte counts (memoryview re-shaped); no caller-owned buffer reaches the transport by reference."
     wc = repo.cls(WM, W)
     sf = repo.func(WM, f"{W}.send_frame")
     wf = repo.func(WM, f"{W}._write_websocket_frame")
